@@ -2,6 +2,7 @@ import Driver.StoreD
 import Driver.LexD
 import Driver.ConstructD
 import Driver.ViewsD
+import Driver.NumExprD
 /-
 One line in, one line out.  First word selects the model.
 Run: `lake env lean --run Driver/Main.lean < ops.txt`
@@ -12,12 +13,14 @@ structure World where
   store : StoreWorld := {}
   lex : LexWorld := {}
   views : ViewsWorld := {}
+  num : NumWorld := {}
 
 def step (w : World) (line : String) : World × String :=
   match splitWords line with
   | "S" :: rest => let (s, out) := storeStep w.store rest; ({ w with store := s }, out)
   | "L" :: rest => let (s, out) := lexStep w.lex rest; ({ w with lex := s }, out)
   | "C" :: rest => (w, constructStep rest)
+  | "N" :: rest => let (s, out) := numStep w.num rest; ({ w with num := s }, out)
   | "V" :: rest => let (v, out) := viewsStep w.views rest; ({ w with views := v }, out)
   | ["reset"] => ({}, "ok")
   | _ => (w, "!bad-op")
